@@ -780,6 +780,7 @@ type c20Run struct {
 	pairs  map[string]bool   // distinct (type, name) pairs sent through getAttribute on structs
 	steps  []c20Step         // lookups of the current batch on modelled objects, in order
 	lookup int
+	extra  []string // more names whose cache entries the model computes for every type of a batch
 }
 
 func c20StructType(val any) reflect.Type {
@@ -909,6 +910,7 @@ func (c *c20Run) modelBatch(env *c20ModelEnv, objs []*c20Obj, oracle map[string]
 	}
 	var qlist []q
 	names := append(c20AllNames(), "Name", "Pub", "Get", "GetN", "Two", "Nothing", "Add", "PAdd", "PGet", "V", "c20Inner", "c20Cyclic", "secret")
+	names = append(names, c.extra...)
 	for id, t := range env.types {
 		if !env.covered(t) {
 			continue
@@ -1102,6 +1104,11 @@ func runC20(e *Env) error {
 		"(e) maps of 8 shapes whose keys look like numbers, booleans, nil, blanks or each other (every single key of a pool of 41, the pool minus every key, random subsets), " +
 		"every name of the pool asked as x.N, x['N'] and through computed keys (context string, set variable, concatenation, loop variable) against the map read directly, " +
 		"and the same contents with literal / integer / boolean / null / looped indices and nested maps through the Lean model. " +
+		"(f) fields of ~50 Go types (builtin scalars, named types with and without String()/Error()/Format(), time.Duration, fs.FileMode, json.Number, named slices / maps / structs, " +
+		"pointers, interface fields holding named values), each as a direct field and promoted through embedded structs / pointers, looked up three times in a row, again after a flood, " +
+		"on two values, value and pointer; x.F compared with direct reflection and, in 22 type-sensitive expressions, with a variable bound to the field's value; random layouts of the pool; " +
+		"(g) names that are a promoted field at one depth and a method at a shallower one (hand-written nil-guard family and reflect.StructOf types embedding a method carrier), every nil / non-nil " +
+		"combination, before / during / after a flood, replayed on the Lean model. " +
 		"non-trivial = expected output non-empty; distinct by (object, name, syntax)"
 	c := &c20Run{e: e, g: c20NewEng(), first: map[string]string{}, pairs: map[string]bool{}}
 
@@ -1425,6 +1432,17 @@ func runC20(e *Env) error {
 	}
 	c20ReceiverResults(e)
 	c20HashCollisions(e)
+	// (I) field types, (J) field-and-method names: last, so that the random stream of the parts above stays what it was
+	tNamed := time.Now()
+	if !r.Full() {
+		c20NamedFields(c)
+	}
+	if !r.Full() {
+		if err := c20FieldMethodNames(c); err != nil {
+			return err
+		}
+	}
+	r.Note(fmt.Sprintf("field types and field/method names (parts f, g): %.1fs", time.Since(tNamed).Seconds()))
 	r.Note(fmt.Sprintf("%d lookups, %d distinct (struct type, name) pairs through the cache (maxSize 1000), %d generated types", c.lookup, len(c.pairs), gen))
 	if len(c.pairs) <= 1000 {
 		r.Violate(Violation{Key: "harness-weak", What: "fewer than 1001 distinct pairs: eviction never ran", Broken: "C20 harness coverage",
